@@ -5,8 +5,11 @@
   `on_train_begin`, `on_epoch_begin`, `on_epoch_end` (no `log_dir`), `on_train_batch_begin`.
 
   Quantizer objects are copied by value into the callback's list at `on_train_begin`
-  (in Python they are shared references; every copy of a shared object receives the same
-  operation sequence, so the factors agree — aliasing is otherwise not modelled).
+  (in Python they are shared references).  Object identity is the `tag`: `get_quantizers` lists an
+  object reached through several attributes / layers once.
+
+  Fix round: `get_quantizers` (recursive walk over activation / cell / nested layers, each object
+  once) and `set_quantizers` on a quantized_linear follow the repaired code.
 -/
 import QKV.Model.QNoise
 namespace QKV.Sched
@@ -17,17 +20,15 @@ inductive Kind where
   /-- quantized_bits / quantized_relu / quantized_po2 / quantized_relu_po2 / quantized_hswish:
       attributes `qnoise_factor`, `use_ste`, `use_variables` (plain, settable), `built` -/
   | std
-  /-- quantized_linear: `qnoise_factor`, `built`, no `use_ste`; `use_variables` is a read-only
-      property, so `quantizer.use_variables = True` raises AttributeError — unless the property
-      already returns `True` (constructed with `use_variables=True`): the trackable `__setattr__`
-      then accepts the assignment as a no-op [probed] -/
+  /-- quantized_linear: `qnoise_factor`, `built`, `use_variables` (a property; settable since the
+      fix of finding C07-sched-quantized-linear), no `use_ste` -/
   | linear
-  /-- anything without a `qnoise_factor` attribute (binary, ternary, …, `None`) -/
+  /-- anything without a `qnoise_factor` attribute (binary, ternary, …, `None`, a plain function) -/
   | noKnob
 deriving Repr, DecidableEq, Inhabited
 
 structure QObj where
-  /-- object identity label (ghost; lets `get_quantizers` results be compared by identity) -/
+  /-- object identity label (Python's `is`): two entries with the same tag are the same object -/
   tag : Nat
   kind : Kind
   useSte : Bool
@@ -39,36 +40,81 @@ def QObj.hasKnob (q : QObj) : Bool :=
   | .noKnob => false
   | _ => true
 
-/-- a layer as `get_quantizers` sees it, plus the quantizers it cannot see -/
-structure Layer where
+/-- the attributes of ONE layer object in which `get_quantizers` looks for quantizers, in lookup order -/
+structure Attrs where
   /-- `layer.quantizers` if the attribute exists (entries may be `None` = `noKnob`) -/
   quantizers : Option (List QObj)
-  /-- `layer.quantizer` if the attribute exists -/
+  /-- `layer.quantizer` if the attribute exists (QActivation, QAdaptiveActivation) -/
   quantizer : Option QObj
-  /-- quantizer objects the layer holds elsewhere: `layer.activation` of QDense/QConv*,
-      `layer.cell.quantizers` of the recurrent layers, quantizers of the layers of a nested model -/
-  hidden : List QObj
+  /-- `layer.get_quantizers()` if the method exists (the recurrent layers return the cell's list,
+      QBidirectional the lists of both directions, the transposed convolutions their own list) -/
+  api : Option (List QObj)
+  /-- `layer.activation` if the attribute exists (QDense / QConv* / pooling …; may be a function) -/
+  activation : Option QObj
+  /-- `layer.recurrent_activation` if the attribute exists (QLSTM / QGRU and their cells) -/
+  recurrentActivation : Option QObj
 deriving Repr, Inhabited
 
-/-- the body of the `for layer` loop of `get_quantizers` -/
-def layerQuantizers (l : Layer) : List QObj :=
-  (match l.quantizers with
-   | some qs => qs.filter QObj.hasKnob
-   | none => []) ++
-  (match l.quantizer with
-   | some q => if q.hasKnob then [q] else []
-   | none => [])
+/-- a layer as the repaired `get_quantizers` sees it: its own attributes and the layers it holds, in
+    lookup order — `layer.layers` (nested model), `layer.cell` (recurrent layer),
+    `layer.forward_layer`, `layer.backward_layer`, `layer.layer` (wrappers) -/
+inductive Layer where
+  | mk (attrs : Attrs) (sub : List Layer)
+deriving Repr, Inhabited
 
-/-- `QNoiseScheduler.get_quantizers(model)` -/
-def getQuantizers (layers : List Layer) : List QObj :=
-  layers.foldl (fun acc l => acc ++ layerQuantizers l) []
+def Layer.attrs : Layer → Attrs
+  | .mk a _ => a
 
-/-- everything a layer holds in the two attributes the callback looks at, in lookup order -/
-def Layer.held (l : Layer) : List QObj :=
-  (l.quantizers.getD []) ++ l.quantizer.toList
+def Layer.sub : Layer → List Layer
+  | .mk _ s => s
 
-/-- every quantizer object of the layer -/
-def Layer.all (l : Layer) : List QObj := l.held ++ l.hidden
+/-- the quantizer objects the first loop of `add_quantizers(layer)` goes through, in order -/
+def Attrs.held (a : Attrs) : List QObj :=
+  a.quantizers.getD [] ++ a.quantizer.toList ++ a.api.getD [] ++ a.activation.toList ++
+    a.recurrentActivation.toList
+
+/-- `if hasattr(quantizer, "qnoise_factor") and not any(quantizer is q for q in all_quantizers):
+       all_quantizers.append(quantizer)` -/
+def addQ (acc : List QObj) (q : QObj) : List QObj :=
+  if q.hasKnob && !(acc.any fun p => p.tag == q.tag) then acc ++ [q] else acc
+
+mutual
+/-- the local function `add_quantizers(layer)` of `get_quantizers`; `acc` is `all_quantizers` -/
+def addLayer (acc : List QObj) : Layer → List QObj
+  | .mk a sub => addLayers (a.held.foldl addQ acc) sub
+/-- `for sub_layer in …: add_quantizers(sub_layer)` / `for layer in model.layers: add_quantizers(layer)` -/
+def addLayers (acc : List QObj) : List Layer → List QObj
+  | [] => acc
+  | l :: ls => addLayers (addLayer acc l) ls
+end
+
+/-- `QNoiseScheduler.get_quantizers(model)` (repaired: findings C07-getq-activation / -rnn-cell /
+    -nested-model) -/
+def getQuantizers (layers : List Layer) : List QObj := addLayers [] layers
+
+mutual
+/-- every quantizer object reachable from a layer, pre-order (own attributes, then held layers) -/
+def Layer.pre : Layer → List QObj
+  | .mk a sub => a.held ++ preList sub
+def preList : List Layer → List QObj
+  | [] => []
+  | l :: ls => l.pre ++ preList ls
+end
+
+/-- "the model holds quantizer object `q`": reachability, stated independently of the walk —
+    `q` sits in one of the five holder attributes of the layer, or the layer holds (as a layer of a
+    nested model, as its cell, as a wrapped layer) a layer that holds `q` -/
+inductive Layer.Holds : Layer → QObj → Prop where
+  | own {l : Layer} {q : QObj} : q ∈ l.attrs.held → Layer.Holds l q
+  | sub {l l' : Layer} {q : QObj} : l' ∈ l.sub → Layer.Holds l' q → Layer.Holds l q
+
+def ModelHolds (layers : List Layer) (q : QObj) : Prop := ∃ l ∈ layers, l.Holds q
+
+/-- `get_quantizers` before the fix round (one level, `quantizers` / `quantizer` only); kept for the
+    regression witnesses -/
+def getQuantizersOld (layers : List Layer) : List QObj :=
+  layers.flatMap fun l =>
+    ((l.attrs.quantizers.getD []) ++ l.attrs.quantizer.toList).filter QObj.hasKnob
 
 structure Cfg where
   start : Int
@@ -118,11 +164,12 @@ def setOne (c : Cfg) (rd : Rnd) (q : QObj) : Option QObj :=
     -- self.set_qnoise_factor(quantizer, qnoise_factor=0.0)
     some { q with useSte := c.useSte, st := st2.update rd 0 }
   | .linear =>
-    if q.st.useVars then
-      let st2 := if q.st.built && !q.st.store.isVar then q.st.build rd true else q.st
-      some { q with st := st2.update rd 0 }
-    else none
-  | .noKnob => none
+    -- no `use_ste` attribute; quantizer.use_variables = True goes through the property setter
+    -- (before the fix: AttributeError unless the property already returned True)
+    let st1 : QState := { q.st with useVars := true }
+    let st2 := if st1.built && !st1.store.isVar then st1.build rd true else st1
+    some { q with st := st2.update rd 0 }
+  | .noKnob => none   -- unreachable: `get_quantizers` returns knob-bearing objects only
 
 /-- `set_quantizers`: (list after the loop, number of completed iterations, raised) -/
 def setAll (c : Cfg) (rd : Rnd) : List QObj → List QObj × Nat × Bool
